@@ -168,8 +168,9 @@ class kFlowDecompCycles(walkmodel.AbstractWalkModelDiGraph):
         # Call the constructor of the parent class AbstractPathModelDAG
         # Build per-edge repetition upper bounds: use the edge flow when available,
         # otherwise fall back to self.w_max (e.g., for source/sink helper edges).
+        # The value of an ignored edge says nothing about the walks (it may be stale, or filled in): such edges get w_max too.
         self.edge_upper_bounds_dict = {
-            (u, v): (data[self.flow_attr] if self.flow_attr in data else self.w_max)
+            (u, v): (data[self.flow_attr] if (self.flow_attr in data and (u, v) not in self.edges_to_ignore) else self.w_max)
             for u, v, data in self.G.edges(data=True)
         }
         super().__init__(
